@@ -1,5 +1,5 @@
 """C08 - parse has exactly three outcomes, fixed by the start rule's match."""
-from contracts import rt_run, rt_final, rt_errors, rt_misc, rt_walk
+from contracts import rt_run, rt_final, rt_errors, rt_misc, rt_walk, shift
 from pyvc.report import Report
 from .common import run_rt
 from . import wiring
@@ -12,10 +12,12 @@ def run(tier, seed):
                      'excerpt and line/column map: every operation that can raise carries a safety VC, so "no other exception" is the '
                      'conjunction of discharged safety VCs; every entry point is shown (on emitted text) to be _run over the right implementation.')
     run_rt(rep, rt_run.RUN + rt_final.FINAL + rt_errors.RT + rt_misc.EXC + [rt_walk.VisitC()], tier)
+    shift.shift_lemmas(rep, tier)
     wiring.entry_point_obligations(rep, tier)
     wiring.rule_wrapper_obligations(rep, tier)
     wiring.derived_start_obligations(rep, tier)
-    rep.assumptions.append('the shift clause (parse(text,k) vs parse(text[k:],0)) is not mechanised: positions are absolute indices in every '
-                           'contract (leaves read text at p, never before it, re contract aside); stated as a paper consequence')
+    rep.assumptions.append('shift clause: mechanised as a lemma over the SPEC functions of the loop-free combinators and the literal leaves (shift-invariant children '
+                           'give a shift-invariant outcome; refuted for Backtrack as it must be); loop classes through their recursive spec functions and the step '
+                           'from spec to code (the fragment contracts) are combined on paper; Regex by the re contract without anchors / look-behind; line/column are not claimed shift-invariant')
     rep.assumptions.append('exceptions raised by user code, MemoryError and RecursionError inside user callbacks are outside the statement')
     return rep.finish()
